@@ -326,10 +326,30 @@ type c05Hdr struct {
 	Type   int    `json:"type"`
 	H1     int    `json:"header_octet_2"`
 	H2     int    `json:"header_octet_3"` // 5GSM only
+	Plain  bool   `json:"via_plain_decoder,omitempty"`
+	Nested int    `json:"first_variable_element_holds_message_type,omitempty"` // >0: the first variable-length element carries a complete 5GMM message of this type
 }
 
 func c05HdrBytes(spec *refcodec.Spec, in c05Hdr) []byte {
 	data := append([]byte{}, c05Body(spec, in.Family, in.Type)...)
+	if in.Nested > 0 {
+		m := spec.ByType(in.Family, in.Type)
+		inner := c05Body(spec, "gmm", in.Nested)
+		data = nil
+		if m != nil && inner != nil {
+			for i := range m.Slots {
+				s := &m.Slots[i]
+				if s.LenSize > 0 && s.Max >= len(inner) && s.Min <= len(inner) && len(s.Alts) == 0 && !s.Half {
+					if s.Optional {
+						data = append(renderMandatory(m, -1, tok{}), renderTok(m, tok{Slot: i, L: len(inner), Raw: string(inner)})...)
+					} else {
+						data = renderMandatory(m, i, tok{Slot: i, L: len(inner), Raw: string(inner)})
+					}
+					break
+				}
+			}
+		}
+	}
 	if len(data) < 3 {
 		return nil
 	}
@@ -346,14 +366,32 @@ func c05HdrExec(c *core.Ctx, in c05Hdr) {
 	if data == nil {
 		return
 	}
-	before := len(c.Viols)
-	c05DecExec(c, c05Dec{Entry: in.Family, Hex: fmt.Sprintf("%x", data)})
-	if len(c.Viols) != before {
-		return
+	entry := in.Family
+	if in.Plain {
+		entry = "plain"
 	}
 	var msg *nas.Message
 	var err error
-	if pi := core.Try(func() { msg, err = implDecodeEntry(in.Family, append([]byte{}, data...)) }); pi != nil || err != nil {
+	pi := core.Try(func() { msg, err = implDecodeEntry(entry, append([]byte{}, data...)) })
+	if pi == nil && err != nil {
+		// the statement does not forbid a decoder that refuses particular values of the other header octets — but the
+		// verdict must then depend on the header only, not on what an element happens to contain
+		c.Inc("header_values_refused_by_the_decoder_not_asserted")
+		if ref, _ := c05Ref(spec, entry, data); in.Nested > 0 && ref.Status != refcodec.Reject {
+			plain := in
+			plain.Nested = 0
+			if d0 := c05HdrBytes(spec, plain); d0 != nil {
+				var err0 error
+				if pi0 := core.Try(func() { _, err0 = implDecodeEntry(entry, append([]byte{}, d0...)) }); pi0 == nil && err0 == nil {
+					c.FailCase("decode|"+entry+"|header-values|routing-depends-on-element-contents", fmt.Sprintf("%s(%x) is refused (%v) while the same header in front of ordinary contents decodes", entry, clip(data), err), "header", in)
+				}
+			}
+		}
+		return
+	}
+	before := len(c.Viols)
+	c05DecExec(c, c05Dec{Entry: entry, Hex: fmt.Sprintf("%x", data)})
+	if len(c.Viols) != before || pi != nil {
 		return
 	}
 	fail := func(k, w string) {
@@ -521,6 +559,17 @@ func c05Run(c *core.Ctx) {
 				for h2 := 0; h2 < h2s; h2++ {
 					n++
 					c05HdrExec(c, c05Hdr{Family: fam, Type: t, H1: h1, H2: h2})
+					if fam == "gmm" || h2%16 == h1%16 {
+						// through PlainNasDecode as well (5GSM: a diagonal of the product), and with a complete 5GMM
+						// message inside the first variable-length element (what follows the header must not steer routing)
+						n++
+						c05HdrExec(c, c05Hdr{Family: fam, Type: t, H1: h1, H2: h2, Plain: true})
+						for _, inner := range []int{0x41, 0x5d, 0x68} {
+							n += 2
+							c05HdrExec(c, c05Hdr{Family: fam, Type: t, H1: h1, H2: h2, Plain: true, Nested: inner})
+							c05HdrExec(c, c05Hdr{Family: fam, Type: t, H1: h1, H2: h2, Nested: inner})
+						}
+					}
 				}
 				c.Tick()
 			}
